@@ -32,6 +32,7 @@ type V struct {
 	S *string
 	M map[string]*V
 	T bool
+	N bool // the Go type of this map is the named type NMap
 }
 
 func (v *V) MarshalJSON() ([]byte, error) {
@@ -46,6 +47,12 @@ func (v *V) MarshalJSON() ([]byte, error) {
 		return json.Marshal(struct {
 			M map[string]*V `json:"m"`
 			T bool          `json:"t"`
+		}{m, true})
+	}
+	if v.N {
+		return json.Marshal(struct {
+			M map[string]*V `json:"m"`
+			N bool          `json:"n"`
 		}{m, true})
 	}
 	return json.Marshal(struct {
@@ -63,11 +70,12 @@ func (v *V) UnmarshalJSON(raw []byte) error {
 		S *string       `json:"s"`
 		M map[string]*V `json:"m"`
 		T bool          `json:"t"`
+		N bool          `json:"n"`
 	}
 	if err := json.Unmarshal(raw, &o); err != nil {
 		return err
 	}
-	v.S, v.M, v.T = o.S, o.M, o.T
+	v.S, v.M, v.T, v.N = o.S, o.M, o.T, o.N
 	if v.S == nil && v.M == nil {
 		v.M = map[string]*V{}
 	}
@@ -91,6 +99,9 @@ func (v *V) toGo() any {
 	for k, x := range v.M {
 		m[k] = x.toGo()
 	}
+	if v.N {
+		return NMap(m)
+	}
 	return m
 }
 
@@ -110,6 +121,12 @@ func fromGo(x any) *V {
 			m[k] = fromGo(e)
 		}
 		return &V{M: m}
+	case NMap:
+		m := map[string]*V{}
+		for k, e := range t {
+			m[k] = fromGo(e)
+		}
+		return &V{M: m, N: true}
 	}
 	return vStr(fmt.Sprintf("<unrenderable %T>", x))
 }
@@ -168,7 +185,7 @@ func vEqual(a, b *V) bool {
 	if a.S != nil {
 		return *a.S == *b.S
 	}
-	if len(a.M) != len(b.M) || a.T != b.T {
+	if len(a.M) != len(b.M) || a.T != b.T || a.N != b.N {
 		return false
 	}
 	for k, x := range a.M {
@@ -248,12 +265,51 @@ func (f *FMap) coq() string {
 	return lib.CoqApp("FTo", lib.CoqList(es))
 }
 
+func (fp *FPath) stages() []string {
+	smap := func(f string) string { return lib.CoqApp("SMap", f) }
+	take := func(k int, asMap bool) string {
+		return smap(lib.CoqApp("FTake", lib.CoqN(uint64(k)), coqBool(asMap)))
+	}
+	to := func(from string, k int) string {
+		return smap(lib.CoqApp("FTo", lib.CoqList([]string{lib.CoqPair(from, lib.CoqN(uint64(k)))})))
+	}
+	var out []string
+	n := len(fp.From)
+	for i := 0; i+1 < n; i++ {
+		out = append(out, take(fp.From[i], true))
+	}
+	if len(fp.To) == 0 {
+		return append(out, take(fp.From[n-1], fp.TakeMap))
+	}
+	last := len(fp.To) - 1
+	if n == 0 {
+		out = append(out, to("None", fp.To[last]))
+	} else {
+		out = append(out, to(lib.CoqSome(lib.CoqN(uint64(fp.From[n-1]))), fp.To[last]))
+	}
+	for j := last - 1; j >= 0; j-- {
+		out = append(out, to("None", fp.To[j]))
+	}
+	return out
+}
+
 // the data edges leaving a node carry its field mapping: node ; mapping
 func (p *Prog) coq() string {
 	base := p.coqBase()
 	if p.Op == "node" && p.N.AnyOut && (p.W == nil || p.W.Out == nil) {
 		// every edge leaving an any-typed node checks the consumer's input type
 		base = lib.CoqApp("SSeq", base, lib.CoqApp("SCheck", coqBool(p.N.AnyMap)))
+	}
+	if p.OutMap != nil && p.OutMap.Path != nil {
+		// a mapping with nested paths is the sequence of the one-step mappings it is made of:
+		// step into the source map field by field, put the value under the innermost target
+		// field, then that map under the next field outwards, ...
+		stages := p.OutMap.Path.stages()
+		s := stages[len(stages)-1]
+		for i := len(stages) - 2; i >= 0; i-- {
+			s = lib.CoqApp("SSeq", stages[i], s)
+		}
+		return lib.CoqApp("SSeq", base, s)
 	}
 	if p.OutMap != nil {
 		return lib.CoqApp("SSeq", base, lib.CoqApp("SMap", p.OutMap.coq()))
@@ -482,8 +538,10 @@ func progTerm(c *Case, run inRun, vs []*V, tags *[]string) string {
 	}
 	st := stats(c.Prog)
 	schunks := "None"
-	if run.allOK && st.pars == 0 && c.Inject == "" {
-		// no merge anywhere: the chunk boundaries of the output are determined
+	if run.allOK && st.pars == 0 && st.paths == 0 && c.Inject == "" {
+		// no merge anywhere: the chunk boundaries of the output are determined (a mapping with nested
+		// paths is modelled as a sequence of one-step mappings: a chunk that lacks the source path
+		// maps to {} in the implementation and to {x: {}} in the model - the same up to concatenation)
 		schunks = lib.CoqSome(lib.CoqPair(lib.CoqList(mapCoq(obs.P[1].Chunks)), lib.CoqList(mapCoq(obs.P[3].Chunks))))
 		if tags != nil {
 			*tags = append(*tags, "exactchunks:true")
@@ -666,6 +724,7 @@ func natCount(n [4]bool) int {
 
 type pstats struct {
 	nodes, derived, pars, branches, keys int
+	paths                                int // mappings with nested paths
 	features                             []string
 }
 
@@ -695,6 +754,16 @@ func stats(p *Prog) pstats {
 		case "par":
 			st.pars++
 			feat["par"] = true
+			typedAll := len(q.Kids) > 0
+			for _, k := range q.Kids {
+				typedAll = typedAll && k.Op == "node" && (k.N.TOut || k.N.NOut) && (k.W == nil || k.W.Out == nil)
+			}
+			if typedAll {
+				feat["typedfanin"] = true
+				if q.Kids[0].N.NOut {
+					feat["namedmapfanin"] = true
+				}
+			}
 		case "branch":
 			st.branches++
 			feat["branch"] = true
@@ -724,7 +793,17 @@ func stats(p *Prog) pstats {
 				feat["sub-"+q.Front] = true
 			}
 		}
-		if q.OutMap != nil {
+		if q.OutMap != nil && q.OutMap.Path != nil {
+			st.keys++
+			st.paths++
+			feat["fieldpath"] = true
+			if len(q.OutMap.Path.From) > 1 {
+				feat["fieldpath-from"] = true
+			}
+			if len(q.OutMap.Path.To) > 1 {
+				feat["fieldpath-to"] = true
+			}
+		} else if q.OutMap != nil {
 			st.keys++
 			if q.OutMap.Take != nil {
 				feat["fromfield"] = true
@@ -853,7 +932,7 @@ func failSig(c *Case, o Obs) string {
 		if strings.Contains(o.P[0].Msg, "field mapping from a map key, but key not found in input") {
 			has := false
 			c.Prog.walk(func(q *Prog) {
-				if q.OutMap != nil && (q.OutMap.Take != nil || len(q.OutMap.To) > 0 && q.OutMap.To[0].From != nil) {
+				if q.OutMap != nil && (q.OutMap.Path != nil && len(q.OutMap.Path.From) > 0 || q.OutMap.Take != nil || len(q.OutMap.To) > 0 && q.OutMap.To[0].From != nil) {
 					has = true
 				}
 			})
